@@ -238,12 +238,11 @@ prop(
                 "handles never reused, freed objects never touched (C17_ownership_ledger), drop callback exactly once "
                 "(C17_drop_callback_once), end takes the inner value and free afterwards is a no-op on it, invalid UTF-8 never "
                 "reaches R, Ok/Err map to 0/-1 with LAST_ERROR set on the calling thread (C17_failure_sets_last_error), each "
-                "entry point = decode; call R; encode (C17_wrapper_unit). The full header-precondition safety statement is "
+                "entry point = decode; call R; encode (C17_wrapper_unit); every -1/NULL of every entry point sets LAST_ERROR incl. the streaming rejections (C17_unit_failure_sets_last_error, C17_streaming_failure_reported). The full header-precondition safety statement is "
                 "REFUTED on the attribute-iterator history (known finding) and proved under the strengthened policy. PARTIAL."),
     level_note="Trusted: Lean kernel; ledger model of c-api/src/*.rs and lol_html.h tied by lane capi.",
     technique="Lean 4 proof (invariant over call histories of an ownership ledger) + correspondence lane",
     design_ref="DESIGN.md section 4 C17",
-    claimed=False,  # TEMP: package being updated to the F21 repair
 )
 
 prop(
